@@ -196,6 +196,17 @@ let () =
           match render w d with
           | Some s -> hex_of_str s
           | None -> "fuel")
+  | "scwhy" ->
+      (* TREE -> the kinds (numbers) of the nodes at which the scope predicate of the conservation theorem fails *)
+      each_line (fun line ->
+          let tree = annotate (parse_tree (toks_of line)) in
+          let acc = ref [] in
+          let rec go t = match t with
+            | Leaf (k, s, _) -> if not (leaf_ok k s t) then acc := (Printf.sprintf "leaf:%d" (int_of_n (kind_to_N k))) :: !acc
+            | Inner (k, cs, _) ->
+                if not (inner_kind k && knode_ok k cs) then acc := (Printf.sprintf "node:%d" (int_of_n (kind_to_N k))) :: !acc;
+                List.iter go cs in
+          go tree; String.concat " " (List.rev !acc))
   | "sigdoc" ->
       (* TREE DOC -> (0 | 1 | 2) (0 | 1): the signature certificate on a document dumped by the implementation (2 = out of scope),
          and whether the tree is in the scope of the conservation theorem *)
